@@ -218,6 +218,23 @@ def oracle_component_repeat(R, tier, seed):
         ("Rotate", lambda: T.Rotate(val=np.zeros(ny), mesh_shape=mesh.shape, symmetry=True), lambda: {"in_mesh": mesh + rng.normal(size=mesh.shape) * 0.01, "twist": rng.uniform(-5, 5, ny)}),
         ("ScaleX", lambda: T.ScaleX(val=np.ones(ny), mesh_shape=mesh.shape), lambda: {"in_mesh": mesh + rng.normal(size=mesh.shape) * 0.01, "chord": draw(ny)}),
     ]
+    # components that sit inside the coupled loop and whose inputs move between design points: point masses / engines placed at
+    # different spanwise stations in A and in B (outputs are compared as well as stored partials)
+    from openaerostruct.structures.compute_point_mass_loads import ComputePointMassLoads
+    from openaerostruct.structures.compute_thrust_loads import ComputeThrustLoads
+    from openaerostruct.structures.fuel_loads import FuelLoads as _FuelLoads
+    psurf = dict(surf, n_point_masses=2)
+    nodes0 = 0.65 * mesh[0] + 0.35 * mesh[-1]
+
+    def pm_inputs():
+        ys = np.sort(rng.uniform(nodes0[:, 1].min(), nodes0[:, 1].max(), 2))
+        return {"point_mass_locations": np.array([[nodes0[1, 0] + 0.4, ys[0], -0.6], [nodes0[2, 0] + 0.8, ys[1], -0.4]]), "point_masses": draw((1, 2), 200, 2000),
+                "nodes": nodes0 + rng.normal(size=(ny, 3)) * 0.01, "load_factor": float(draw((), 1, 2.5))}
+    cases += [
+        ("ComputePointMassLoads", lambda: ComputePointMassLoads(surface=psurf), pm_inputs),
+        ("ComputeThrustLoads", lambda: ComputeThrustLoads(surface=psurf), lambda: {k: v for k, v in dict(pm_inputs(), engine_thrusts=draw((1, 2), 1e4, 6e4)).items() if k not in ("point_masses", "load_factor")}),
+        ("FuelLoads", lambda: _FuelLoads(surface=gen.wingbox_surface(mesh, symmetry=True)), lambda: {"fuel_vols": draw(ny - 1), "nodes": nodes0 + rng.normal(size=(ny, 3)) * 0.01, "fuel_mass": float(draw((), 1e4, 5e4)), "load_factor": float(draw((), 1, 2.5))}),
+    ]
     for cname, mk, ins in cases:
         A, B = ins(), ins()
 
@@ -232,6 +249,8 @@ def oracle_component_repeat(R, tier, seed):
                     _quiet(p.model.run_linearize)
             comp = p.model.c
             out = {}
+            for n in comp._var_rel_names["output"]:
+                out[("output", n)] = np.array(p.get_val(n), dtype=float).copy()
             for k in comp._jacobian.keys():
                 v = comp._jacobian[k]; v = v.toarray() if hasattr(v, "toarray") else np.asarray(v)
                 out[(k[0].split(".")[-1], k[1].split(".")[-1])] = np.array(v, dtype=float).copy()
@@ -243,6 +262,10 @@ def oracle_component_repeat(R, tier, seed):
             bad = {k: relerr(live[k], fresh[k]) for k in fresh if relerr(live[k], fresh[k]) > 1e-12}
             if not bad:
                 O["ok"] += 1; continue
+            if any(k[0] == "output" for k in bad):
+                O["failures"].append({"key": "C03:%s.compute:outputs-depend-on-history" % cname, "case": {"component": cname, "history": label, "point": {k: np.asarray(v).tolist() for k, v in B.items()},
+                                      "previous_point": {k: np.asarray(v).tolist() for k, v in A.items()}}, "outputs": {k[1]: v for k, v in bad.items() if k[0] == "output"}})
+                continue
             ofs = sorted({k[0] for k in bad})
             key = KEY_F02 if cname == "MomentCoefficient" and ofs == ["M"] else "C03:%s.compute_partials:stored-partials-of-%s-depend-on-history" % (cname, ofs[0])
             O["failures"].append({"key": key, "case": {"component": cname, "history": label, "point": {k: np.asarray(v).tolist() for k, v in B.items()}},
